@@ -53,6 +53,8 @@ Init0 == [
   abrtSeen |-> {},       \* bars some getter reported aborted
   dropped  |-> {},       \* bars on which Abort(drop=true) has returned
   aborts   |-> EmptyF,   \* bar -> set of drop flags of the Abort calls issued while the container was live
+  abortsU  |-> EmptyF,   \* ... of those that returned after a cancellation / Shutdown was requested: the bar may already have
+                         \*     been aborted by its context, in which case the call had no effect
   prioAt   |-> EmptyF,   \* bar -> seq of the latest priority change that returned
   stopReq  |-> FALSE,    \* the program asked for cancellation / Shutdown
   closing  |-> FALSE,    \* some Wait has passed its barrier and is cancelling the container
@@ -64,6 +66,7 @@ Init0 == [
   fmts     |-> <<>>,     \* width exchanges of the frame being drawn
   final    |-> EmptyF,   \* bar -> getter result read after the container was done
   listens  |-> EmptyF,   \* decorator -> number of OnShutdown calls
+  ewmas    |-> EmptyF,   \* decorator -> number of EwmaUpdate calls
   fault    |-> FALSE,
   faultAt  |-> 0,
   faultBar |-> "",       \* the bar whose filler / extender failed ("" for an output error)
@@ -72,6 +75,7 @@ Init0 == [
   hung     |-> FALSE,
   detached |-> {},       \* bars whose push back into the container travelled outside the queue (n > q)
   detachedF |-> {},      \* ... since the frame before the previous one
+  curUB    |-> EmptyF,   \* bar -> upper bound of its counter: everything the increments and SetCurrent calls issued so far could add up to
   renderStarted |-> TRUE
 ]
 
@@ -82,6 +86,7 @@ HasSucc(s, b) == \E x \in DOMAIN s.bars : s.bars[x].after = b /\ s.bars[x].ok
 (* May a terminal bar leave the display?  Remove-on-complete applies unless an Abort(false) reset it; the reset
    only happens when that Abort took effect, i.e. the bar is not known to have completed. *)
 AbortFlags(s, b) == IF b \in DOMAIN s.aborts THEN s.aborts[b] ELSE {}
+AbortFlagsU(s, b) == IF b \in DOMAIN s.abortsU THEN s.abortsU[b] ELSE {}
 Leaves(s, b)  == \/ (s.bars[b].rm /\ (FALSE \notin AbortFlags(s, b) \/ b \in s.compShown))
                  \/ b \in s.dropped
                  \/ (s.cfg.pop /\ ~s.bars[b].nopop)
@@ -93,9 +98,11 @@ Poppable(s, b) == s.cfg.pop /\ ~s.bars[b].nopop /\ ~HasSucc(s, b)
 (* the remove-on-complete option, or aborted when every Abort issued asked for the drop     *)
 (* (Abort(false) resets the option; with mixed calls the effective one is not observable).  *)
 Removed(s, b)  == /\ b \in DOMAIN s.final /\ ~Poppable(s, b) /\ ~HasSucc(s, b)
-                  /\ LET ab == IF b \in DOMAIN s.aborts THEN s.aborts[b] ELSE {} IN
-                     IF s.final[b].aborted THEN (ab = {TRUE}) \/ (ab = {} /\ s.bars[b].rm)
-                     ELSE s.bars[b].rm /\ FALSE \notin ab
+                  /\ LET ab == AbortFlags(s, b)
+                         all == ab \cup AbortFlagsU(s, b) IN
+                     \* every way the calls can have played out asks for removal
+                     IF s.final[b].aborted THEN all \subseteq {TRUE} /\ (ab # {} \/ s.bars[b].rm)
+                     ELSE s.bars[b].rm /\ FALSE \notin all
 
 ---------------------------------------------------------------------------
 (* Mechanisms of the recorded findings.  A rule whose violation coincides with one of them  *)
@@ -166,10 +173,14 @@ FrameRules(s, e) ==
   \* C09/C03: a completed row shows current = total
   \o (LET odd == {i \in DOMAIN gs : gs[i].fl = "C" /\ gs[i].cur # gs[i].tot}
       IN IF odd # {} THEN <<B("C03", "completed-row-not-full", e, ToString({gs[i].b : i \in odd}))>> ELSE <<>>)
+  \* C04/C03/C18: a displayed bar is displayed with all the rows of its group (the bar row and every
+  \*      complete line its extender wrote); the programs keep every frame within the height limit
+  \o (LET short == {i \in DOMAIN gs : gs[i].b \in DOMAIN s.bars /\ gs[i].ext # s.bars[gs[i].b].ext}
+      IN IF short # {} THEN <<B("C04,C03,C18", "row-group-incomplete", e, ToString({gs[i].b : i \in short}))>> ELSE <<>>)
   \* C07: no row wider than the terminal
   \o (IF s.cfg.width > 0 /\ e.maxw > s.cfg.width THEN <<B("C07", "row-too-wide", e, ToString(e.maxw))>> ELSE <<>>)
   \* C04/C13: grammar of a frame
-  \o (IF e.malformed # <<>> THEN <<B("C13", "malformed-frame", e, ToString(e.malformed))>> ELSE <<>>)
+  \o (IF e.malformed # <<>> THEN <<B("C13,C04,C18", "malformed-frame", e, ToString(e.malformed))>> ELSE <<>>)
   \* C03: nothing is written after Wait has returned
   \o (IF s.waitAt # 0 THEN <<B("C03", "write-after-wait", e, "frame")>> ELSE <<>>)
   \* C15: no frame after a render error
@@ -292,6 +303,10 @@ FinalRules(s, e) ==
   \o (LET want == UNION {Range_(s.bars[b].listens) : b \in okb}
           wrong == {d \in want : (IF d \in DOMAIN s.listens THEN s.listens[d] ELSE 0) # 1}
       IN IF wrong # {} /\ s.doneAt # 0 /\ ~s.hung THEN <<B("C14", "listener-count", e, ToString(wrong))>> ELSE <<>>)
+  \* C10/C19/C20: every sample handed to a bar reaches each of its moving-average decorators (the same number of times)
+  \o (LET Cnt(d) == IF d \in DOMAIN s.ewmas THEN s.ewmas[d] ELSE 0
+          odd == {b \in okb : Cardinality({Cnt(d) : d \in Range_(s.bars[b].ewmas)}) > 1}
+      IN IF odd # {} /\ ~s.hung THEN <<B("C10,C19,C20", "ewma-samples-differ-between-decorators", e, ToString(odd))>> ELSE <<>>)
   \* C14/C05: the notifier
   \o (IF s.cfg.notifier /\ s.doneAt # 0 /\ ~s.hung /\ Len(s.notifies) # 1
       THEN <<B("C14", "notifier-count", e, ToString(Len(s.notifies)))>> ELSE <<>>)
@@ -340,8 +355,8 @@ Step(s, e) ==
          [Init0 EXCEPT !.tr = e.tr, !.cfg = e.cfg, !.family = e.family, !.renderStarted = ~e.cfg.delay]
     [] e.ev = "inv" /\ e.op = "add" ->
          [s EXCEPT !.bars = @ @@ (e.b :> [total |-> e.total, rm |-> e.rm, nopop |-> e.nopop, after |-> e.after,
-                                          hasprio |-> e.hasprio, prio |-> e.prio, listens |-> e.listens,
-                                          npre |-> e.npre, trim |-> e.trim, nsync |-> e.psync + e.async,
+                                          hasprio |-> e.hasprio, prio |-> e.prio, listens |-> e.listens, ewmas |-> e.ewmas,
+                                          npre |-> e.npre, trim |-> e.trim, nsync |-> e.psync + e.async, ext |-> e.ext,
                                           inv |-> e.seq, ret |-> 0, ok |-> FALSE])]
     [] e.ev = "ret" /\ e.op = "add" ->
          [s EXCEPT !.bars[e.b].ret = e.seq, !.bars[e.b].ok = (e.err = "")]
@@ -353,12 +368,19 @@ Step(s, e) ==
     [] e.ev = "ret" /\ e.op = "prio" /\ e.b \in DOMAIN s.prio ->
          \* honoured unless the bar has already left the display
          IF e.b \in s.gone \/ s.doneAt # 0 THEN s
-         ELSE IF s.stopReq \/ s.closing THEN [s EXCEPT !.prioLost = TRUE]
+         ELSE IF s.stopReq \/ s.closing
+              THEN [s EXCEPT !.prioLost = TRUE,   \* it may or may not have been applied
+                             !.prioAt = IF e.b \in DOMAIN @ THEN [@ EXCEPT ![e.b] = e.seq] ELSE @ @@ (e.b :> e.seq)]
          ELSE [s EXCEPT !.prio[e.b] = e.n, !.lazy = @ \/ e.flag,
                         !.prioAt = IF e.b \in DOMAIN @ THEN [@ EXCEPT ![e.b] = e.seq] ELSE @ @@ (e.b :> e.seq)]
     [] e.ev = "ret" /\ e.op = "abort" /\ s.doneAt = 0 ->
          [s EXCEPT !.dropped = IF e.flag THEN @ \cup {e.b} ELSE @,
-                   !.aborts = IF e.b \in DOMAIN @ THEN [@ EXCEPT ![e.b] = @ \cup {e.flag}] ELSE @ @@ (e.b :> {e.flag})]
+                   !.aborts = IF s.stopReq THEN @
+                              ELSE IF e.b \in DOMAIN @ THEN [@ EXCEPT ![e.b] = @ \cup {e.flag}] ELSE @ @@ (e.b :> {e.flag}),
+                   !.abortsU = IF ~s.stopReq THEN @
+                               ELSE IF e.b \in DOMAIN @ THEN [@ EXCEPT ![e.b] = @ \cup {e.flag}] ELSE @ @@ (e.b :> {e.flag})]
+    [] e.ev = "inv" /\ e.op \in {"incr", "setcur", "ewma"} /\ e.n > 0 ->
+         [s EXCEPT !.curUB = [b \in DOMAIN @ \cup {e.b} |-> (IF b \in DOMAIN @ THEN @[b] ELSE 0) + (IF b = e.b THEN e.n ELSE 0)]]
     [] e.ev = "inv" /\ e.op \in {"cancel", "shutdown"} -> [s EXCEPT !.stopReq = TRUE]
     [] e.ev = "closing" -> [s EXCEPT !.closing = TRUE]
     [] e.ev = "inv" /\ e.op = "delayend" -> [s EXCEPT !.renderStarted = TRUE]
@@ -381,6 +403,7 @@ Step(s, e) ==
                              ELSE @]
     [] e.ev = "cycle" -> [s EXCEPT !.cyc = e.seq, !.fmts = <<>>]
     [] e.ev = "fmtret" -> [s EXCEPT !.fmts = Append(@, e)]
+    [] e.ev = "ewma" -> [s EXCEPT !.ewmas = IF e.d \in DOMAIN @ THEN [@ EXCEPT ![e.d] = @ + 1] ELSE @ @@ (e.d :> 1)]
     [] e.ev = "out" ->
          LET cur  == NameSet(e.groups)
              prev == NameSet(PrevGroups(s))
@@ -449,6 +472,10 @@ Check(s, e) ==
          IN <<B(ps, "hang" \o why, e, ToString(<<e.kind, e.pending>>))>>
     [] e.ev = "panic" ->
          <<B("C02", "panic" \o (IF s.detached # {} /\ e.closedsend THEN "/detached-push" ELSE ""), e, e.msg)>>
+    \* C09: a refill mark never exceeds what the counter can have been when the mark was set
+    [] e.ev = "fill" ->
+         IF e.refill > (IF e.b \in DOMAIN s.curUB THEN s.curUB[e.b] ELSE 0)
+         THEN <<B("C09", "refill-exceeds-counter", e, ToString(<<e.b, e.refill>>))>> ELSE <<>>
     [] e.ev = "race" -> IF e.lib THEN <<B("C10", "data-race", e, e.msg)>> ELSE <<>>
     [] e.ev = "latewrite" -> <<B("C03", "write-after-wait", e, "late")>>
     [] e.ev = "quiesce" -> FinalRules(s, e) \o OrderRules(s, e)
